@@ -105,9 +105,9 @@ class NearestBetterClustering:
         # With a single kept individual there is no nearest-better distance; the best one is still a seed.
         mean_distance = np.mean(distances) if distances else 0.0
         correction_factor = 1 if not self.use_correction else self._get_correction_factor()
-        return [
-            node for node in nodes if node.data["distance"] > mean_distance * self.distance_factor * correction_factor
-        ]
+        threshold = mean_distance * self.distance_factor * correction_factor
+        # The best individual (the tree's root) is always a seed, also when the threshold is not a finite number.
+        return [node for node in nodes if node.is_root() or node.data["distance"] > threshold]
 
     def _find_nearest_better(
         self, individual: Individual, better_individuals: list[Individual]
